@@ -16,3 +16,13 @@ Print Assumptions ifc67_vs_iapws97_liquid_density_partial.
 Theorem ifc67_vs_iapws97_steam_density_partial : forall t p : R, steam_region t p -> rel_stm t p <= 1 / 100.
 Proof. exact steam_density_agrees_on_region. Qed.
 Print Assumptions ifc67_vs_iapws97_steam_density_partial.
+
+(** PARTIAL: |u67 - u97| / u97 <= 0.6 % for steam on 550..800 degC x 5..10 MPa and 650..800 degC x 10..20 MPa *)
+Theorem ifc67_vs_iapws97_steam_energy_partial : forall t p : R, steam_energy_region t p -> relu_stm t p <= 6 / 1000.
+Proof. exact steam_energy_agrees_on_region. Qed.
+Print Assumptions ifc67_vs_iapws97_steam_energy_partial.
+
+(** PARTIAL: |u67 - u97| <= 7 kJ/kg for liquid water on 0.01..10 degC x 12.4 kPa..100 MPa *)
+Theorem ifc67_vs_iapws97_liquid_energy_partial : forall t p : R, liquid_energy_region t p -> du_liq t p <= 7000.
+Proof. exact liquid_energy_agrees_on_region. Qed.
+Print Assumptions ifc67_vs_iapws97_liquid_energy_partial.
